@@ -573,11 +573,11 @@ Qed.
 Section ChainProofs.
   Variable fx : bool.
   Variable w : nat.
-  Variable add : N -> N -> N.
+  Variable ops : fops.
   Variable sm : list N -> list N.
-  Notation run := (run fx w add sm).
-  Notation run_list := (run_list fx w add sm).
-  Notation run_steps := (run_steps fx w add sm).
+  Notation run := (run fx w ops sm).
+  Notation run_list := (run_list fx w ops sm).
+  Notation run_steps := (run_steps fx w ops sm).
 
   Lemma run_chain_nil l : run (FChain []) l = Ok l.
   Proof. reflexivity. Qed.
@@ -617,7 +617,7 @@ Section ChainProofs.
     induction fs as [|g r IH]; intros l.
     - reflexivity.
     - rewrite run_chain_cons. cbn [ModelFilters.run_steps].
-      destruct (ModelFilters.run fx w add sm g l) as [l'| |] eqn:E; cbn [bind].
+      destruct (ModelFilters.run fx w ops sm g l) as [l'| |] eqn:E; cbn [bind].
       + rewrite last_cons_default. apply IH.
       + reflexivity.
       + reflexivity.
@@ -625,8 +625,8 @@ Section ChainProofs.
 End ChainProofs.
 
 (* no filter of the fixed code panics, for any input, K, P, SIMD width >= 1, softmax oracle *)
-Lemma run_fixed_never_panics w add sm : (1 <= w)%nat ->
-  forall f l, run true w add sm f l <> Panic.
+Lemma run_fixed_never_panics w ops sm : (1 <= w)%nat ->
+  forall f l, run true w ops sm f l <> Panic.
 Proof.
   intros Hw. induction f as [k|p m|t|p| |fs IH] using filt_ind'; intros l.
   - cbn [run]. destruct (topk_fixed_spec w k l Hw) as (out & E & _). rewrite E. discriminate.
@@ -636,7 +636,7 @@ Proof.
   - discriminate.
   - revert l. induction IH as [|g r Hg _ IHr]; intros l.
     + discriminate.
-    + rewrite run_chain_cons. destruct (run true w add sm g l) as [l'| |] eqn:E; cbn [bind].
+    + rewrite run_chain_cons. destruct (run true w ops sm g l) as [l'| |] eqn:E; cbn [bind].
       * apply IHr.
       * exfalso. apply (Hg l). exact E.
       * discriminate.
